@@ -213,6 +213,9 @@ def verify_function1(ex, c, prop, case):
             i0, i1, len(srcs), body[0].lineno, body[-1].end_lineno)
     outs = ex.exec_block(body, st, fr)
     fres.paths = len(outs)
+    if len(outs) > 1500:
+        raise Unsupported('%s: %d paths — too many to discharge (loop invariant inapplicable and unrolling explodes?)'
+                          % (c.qualname, len(outs)))
     lemma_terms = []
     for k, v, s in outs:
         inputs = list(inputs0)
